@@ -3008,7 +3008,9 @@ class sptensor:
                 return self.copy()
             csubs = self.subs
             cvals = self.vals * np.atleast_1d(other[csubs])[:, None]
-            return ttb.sptensor(csubs, cvals, self.shape)
+            # Entries multiplied by a zero of the dense tensor are no longer nonzeros
+            keep = (cvals != 0).transpose()[0]
+            return ttb.sptensor(csubs[keep], cvals[keep], self.shape)
         if isinstance(other, ttb.ktensor):
             csubs = self.subs
             cvals = np.zeros(self.vals.shape)
